@@ -460,6 +460,19 @@ func runStage(id string, idx int, s stage, tier string, seed int64, scale float6
 			}
 			res.passedN += parsePassed(string(out), per, err == nil)
 			if err != nil {
+				if _, e := os.Stat(replayOut); e != nil && s.Race && strings.Contains(string(out), "WARNING: DATA RACE") {
+					// the race detector, not an oracle, failed the run: its report is the finding
+					txt := string(out)
+					i := strings.Index(txt, "WARNING: DATA RACE")
+					exc := txt[i:]
+					if len(exc) > 2500 {
+						exc = exc[:2500]
+					}
+					rp := &vlib.Replay{Property: id, Harness: s.Harness + "-race", Kind: "race", Case: json.RawMessage("{}"),
+						Violation: &vlib.Violation{Property: id, Signature: "race/data-race", Detail: exc}}
+					b, _ := json.MarshalIndent(rp, "", " ")
+					os.WriteFile(replayOut, b, 0o644)
+				}
 				if _, e := os.Stat(replayOut); e == nil {
 					res.replays = append(res.replays, replayOut)
 				} else {
